@@ -36,8 +36,9 @@ func VerifC16_Chain() {
 	f := verifFlow("Result", "Cat", "Res", "C")
 	f["uuid"] = "8f6f4e8e-5d0a-4a9e-9c3a-3c1c6f1a2b3c"
 	f["spec_version"] = verifChainVersions[from]
-	v1, t1 := "@fields.age", verifChainText("translated-variable", 2)
+	v1, t1 := "@fields.age", "x"+verifChainText("translated-variable", 1)
 	if zzverif.Thorough() {
+		t1 = verifChainText("translated-variable", 2)
 		v1 = "@fields." + verifChainText("variable", 1)
 	}
 	sm := f.Nodes()[0].Actions()[0]
